@@ -162,6 +162,7 @@ func RunRT(w *World) {
 		w.genesis(w.honest()[i])
 	}
 	cfg := w.cfg
+	lastFocusH := uint64(0)
 	for w.step = 0; w.step < cfg.MaxSteps && w.viol == nil && !w.tainted; w.step++ {
 		w.sampleState()
 		w.checkQuiescentInvariants()
@@ -174,6 +175,23 @@ func RunRT(w *World) {
 		}
 		if !f.alive || w.netDone() {
 			break
+		}
+		if hNow := f.height(); hNow != lastFocusH {
+			moved := lastFocusH != 0 && hNow > lastFocusH
+			lastFocusH = hNow
+			if moved && hNow >= 3 && len(f.gates) == 0 && w.ch.Pick("tip-again-after-commit", 6) == 5 {
+				// the consumer announces its old tip again right after the node moved on: the stale sync is the first
+				// thing the main loop sees since the node changed height (nothing has refreshed its view of what is old)
+				for _, p := range w.honest() {
+					if sb, ok := p.store[hNow-2]; ok {
+						w.probe("api-sync-two-behind-right-after-height-change")
+						w.stats.Fault("sync-older")
+						w.syncTo(f, sb, hNow-2, "api-sync")
+						break
+					}
+				}
+				continue
+			}
 		}
 		w.directorStep()
 		if w.rtStep(f) {
@@ -358,6 +376,16 @@ func (w *World) apiStress(f *Node) bool {
 	}
 	k := w.ch.Pick("api-which", len(cands))
 	burst := 1 + w.ch.Pick("api-burst", 3)
+	if w.ch.Pick("api-tip-again", 4) == 3 {
+		// the consumer announces its tip again, late: by now the block is two heights behind what the node decides (a
+		// stale sync that the main loop lets through if nothing else has passed through it since the last commit)
+		for i := range hs {
+			if hs[i]+2 == h {
+				k, burst = i, 1
+				w.probe("api-sync-two-behind")
+			}
+		}
+	}
 	if f.simLogger && f.logYieldIn <= 0 && len(f.gates) == 0 && w.ch.Pick("api-log-yield", 4) == 3 {
 		// hold the worker at one of its next log lines, i.e. inside its handling of the first sync of the burst
 		f.logYieldIn = 1 + w.ch.Pick("log-yield-in", 4)
